@@ -925,3 +925,55 @@ Definition run_pixels_by_frame_status (tab : list (Q * Q)) ds fl rsel vsel ymin 
   vstatus (get_pixels_by_frame (exp_table tab) ds fl rsel vsel ymin ymax odt frames fis).
 Definition run_series_status (tab : list (Q * Q)) fl rsel vsel ymin ymax odt slices : val :=
   vstatus (get_series (exp_table tab) fl rsel vsel ymin ymax odt slices).
+
+(* ------------------------------------------------------------------ *)
+(* 12. memory layout of the numpy array handed to LUT(...)             *)
+(* ------------------------------------------------------------------ *)
+(* A one-dimensional numpy array as the caller owns it: a strided view (byte offset, byte stride -
+   possibly negative -, number of items, item size 1 or 2) into a byte buffer, 16-bit items in
+   big- or little-endian byte order.  What LUT.__init__ is GIVEN is the array's logical values
+   [na_values]; what it must store is their little-endian encoding, whatever the layout
+   (content.py: lut_data.astype(dtype.newbyteorder('<')).tobytes()). *)
+Record nparr := NpArr { na_buf : list Z; na_off : Z; na_stride : Z; na_n : Z;
+                        na_item : Z; na_big : bool }.
+Definition na_byte (a : nparr) (p : Z) : Z := nth (Z.to_nat p) (na_buf a) 0.
+Definition na_pos (a : nparr) (i : Z) : Z := na_off a + i * na_stride a.
+Definition na_elem (a : nparr) (i : Z) : Z :=
+  let p := na_pos a i in
+  if na_item a =? 1 then na_byte a p
+  else if na_big a then 256 * na_byte a p + na_byte a (p + 1)
+  else na_byte a p + 256 * na_byte a (p + 1).
+Definition na_values (a : nparr) : list Z :=
+  map (fun i => na_elem a (Z.of_nat i)) (seq 0 (Z.to_nat (na_n a))).
+(* every item lies inside the buffer (numpy guarantees it for a view), all bytes are bytes *)
+Definition na_inside (a : nparr) : bool :=
+  forallb (fun i => let p := na_pos a (Z.of_nat i) in (0 <=? p) && (p + na_item a <=? zlen (na_buf a)))
+          (seq 0 (Z.to_nat (na_n a))).
+Definition na_bytes_ok (a : nparr) : bool := forallb (fun b => (0 <=? b) && (b <? 256)) (na_buf a).
+
+(* LUT.__init__ on such an array: bits from dtype.type (= item size), entries = logical values *)
+Definition mk_lut_arr (first : Z) (a : nparr) (expl : option string) (pad : bool) : res lutds :=
+  mk_lut first (na_values a) (8 * na_item a) expl pad.
+
+(* the array's own bytes in item order (numpy.ascontiguousarray(a).tobytes(): contiguous, but the
+   byte order of the dtype is kept) - NOT what the code stores; used only for the refutation
+   theorem that shows the byte-order normalisation is necessary *)
+Definition na_own_bytes (a : nparr) : list Z :=
+  flat_map (fun i => let p := na_pos a (Z.of_nat i) in
+                     if na_item a =? 1 then [na_byte a p] else [na_byte a p; na_byte a (p + 1)])
+           (seq 0 (Z.to_nat (na_n a))).
+Definition mk_lut_arr_own_bytes (first : Z) (a : nparr) : lutds :=
+  let n := na_n a in
+  let b := na_own_bytes a in
+  LutDS (if n =? 65536 then 0 else n) first (8 * na_item a)
+        (if zlen b mod 2 =? 1 then b ++ [0] else b) None false.
+
+(* observed: descriptor, number of stored bytes, the stored bytes, lut_data, lookups *)
+Definition run_lut_layout first buf off stride n item big pad xs : val :=
+  let a := NpArr buf off stride n item big in
+  if negb (na_inside a && na_bytes_ok a) then VErr "BadLayout"
+  else
+  vres (fun l => VL [VZ (ld_n l); VZ (ld_first l); VZ (ld_bits l); VZ (zlen (ld_bytes l));
+                     summary (ld_bytes l); vres summary (lut_data l);
+                     vres (fun d => vz_list (map (lut_lookup 0 (ld_first l) d) xs)) (lut_data l)])
+       (mk_lut_arr first a None pad).
